@@ -94,6 +94,7 @@ fn main() {
     let kmax = if quick { 5 } else { 7 };
     let mut shapes = ohmc::props::structured::shapes(kmax);
     shapes.extend(ohmc::props::structured::degree_probes(if quick { 6 } else { 9 }));
+    shapes.extend(ohmc::props::structured::shuffled_dags().into_iter().filter(|x| quick == false || x.1.edges.len() <= 20));
     ctx.run_slice(Slice::new(format!("structured-shapes[sizes 1..{}: {} diagrams; deviations <= {}]", kmax, shapes.len(), bound), shapes.len() as u64, |i, loc| {
         check_layer(&shapes[i as usize].1, bound, loc);
         check_predicates(&shapes[i as usize].1, bound, loc);
